@@ -1315,10 +1315,14 @@ def sweep_part(ctx, chk, configs, dflts):
 def walk_part(ctx, chk, walks):
     """De Bruijn walks: every sequence of `order` consecutive operation tuples"""
     exprs, meta = [], []
-    for (nw, nr, order, inits, dflts) in walks:
-        cfg = MemCfg(0, 1, 1, nw, nr)
+    for walk in walks:
+        (nw, nr, order, inits, dflts), opt = walk[:5], (walk[5] if len(walk) > 5 else {})
+        # opt: operand sources of the ports ('wk', 'rk'), the sub-alphabet of operations they can present ('pred')
+        cfg = MemCfg(0, 1, 1, nw, nr, wk=opt.get('wk'), rk=opt.get('rk'))
+        cfg.label = opt.get('label', 'inputs')
         ops = ok_ops(nw, nr)
-        codes = de_bruijn(len(ops), order)
+        alphabet = [i for i, op in enumerate(ops) if opt.get('pred', lambda op: True)(op)]
+        codes = [alphabet[x] for x in de_bruijn(len(alphabet), order)]
         hist = [ops[i] for i in codes]
         steps = steps_of([cfg], [hist], len(hist))
         be = tiny_backends(ctx, cfg, True)
@@ -1346,14 +1350,14 @@ def walk_part(ctx, chk, walks):
                     dflt, hpairs(content), nw, nr, bits, len(codes), hzlist(pcodes), hzlist(pexp),
                     natlist(res['sim'][2][0]), natlist(res['fast'][2][0]), natlist(p_comp)))
                 meta.append((cfg, hist, dflt, content, res, order, py_reads, py_final))
-                ctx.count('walk_cycles', '%dw%dr order %d' % (nw, nr, order), len(hist))
+                ctx.count('walk_cycles', '%dw%dr order %d, port operands: %s' % (nw, nr, order, cfg.label), len(hist))
     out = ctx.coq_eval(exprs, IMPORTS, tag='c08walk', shard=1, jobs=15)
     for (cfg, hist, dflt, content, res, order, py_reads, py_final), v in zip(meta, out):
         flags, finals = [bool(x) for x in v[0]], v[1]
         sfinal = list(finals[0])
         d1, d2, f3 = [tuple(p) for p in finals[1]], [tuple(p) for p in finals[2]], list(finals[3])
         replay = {'tier': ctx.tier, 'memory': cfg.desc(), 'memory_value_map': content, 'default_value': dflt,
-                  'walk': 'de Bruijn order %d over %d operation tuples' % (order, len(ok_ops(cfg.nw, cfg.nr)))}
+                  'walk': 'de Bruijn order %d over the operation tuples the ports can present (%s)' % (order, cfg.label)}
         if not (flags[0] and flags[1] and flags[2]) or [py_final.get(a, dflt) for a in (0, 1)] != sfinal:
             ctx.model_mismatch('walk: Coq array spec and Python array spec disagree (flags %s)' % flags, replay)
             continue
@@ -1368,7 +1372,7 @@ def walk_part(ctx, chk, walks):
                             tie=(fl, None if mfinal is None else [tuple(x) for x in r[1][0]] == mfinal))
             # one case per window of `order` consecutive operations
             for t in range(len(hist) - order + 1):
-                ctx.case(('walk', backend, cfg.nw, cfg.nr, order, dflt, len(content), t), nontrivial=True,
+                ctx.case(('walk', backend, cfg.nw, cfg.nr, cfg.label, order, dflt, len(content), t), nontrivial=True,
                          sample=dict(replay, backend=backend, window_of_operations=hist[t:t + order],
                                      reads=r[0][0][t:t + order])
                          if (t == 100 and backend == 'compiled' and cfg.nw == 1 and not content) else None)
@@ -1766,7 +1770,12 @@ def run(real_ctx):
         _timed(ctx, 'sweep_part', sweep_part, ctx, chk, [(1, 1), (2, 1), (1, 2), (2, 2)], [0, 1])
         _timed(ctx, 'walk_part', walk_part, ctx, chk, [(1, 1, 3, [[], [(0, 1)], [(1, 1), (0, 0)]], [0, 1]),
                              (2, 1, 2, [[], [(1, 1)]], [0]),
-                             (1, 2, 2, [[]], [0, 1])])
+                             (1, 2, 2, [[]], [0, 1]),
+                             (1, 1, 3, [[], [(0, 1)]], [0], {'wk': [('in', 'reg', 'reg', 0)], 'label': 'write data and enable from registers'}),
+                             (1, 1, 2, [[(1, 1)]], [0], {'wk': [('reg', 'in', 'in', 0)], 'rk': ['reg'], 'label': 'write address and read address from registers'}),
+                             (2, 1, 2, [[], [(0, 1), (1, 1)]], [0], {'wk': [('in', 'in', 'in', 0), ('in', 'in', 'c0', 0)], 'pred': lambda op: op[0][1][2] == 0, 'label': 'second port tied off (enable Const 0)'}),
+                             (2, 1, 2, [[]], [0], {'wk': [('in', 'reg', 'in', 0), ('const', 'in', 'c1', 1)], 'pred': lambda op: op[0][1][2] == 1 and op[0][1][0] == 1, 'label': 'second port always writes address 1 (Const address, Const 1 enable), first port data from a register'}),
+                             (1, 1, 2, [[(0, 1)]], [0], {'wk': [('reg', 'reg', 'implicit', 0)], 'pred': lambda op: op[0][0][2] == 1, 'label': 'unconditional write, address and data from registers'})])
         _timed(ctx, 'twin_part', twin_part, ctx, chk, 2, [[[], []], [[], [(0, 1)]], [[(1, 1)], []]], [0, 1])
         _timed(ctx, 'random_part', random_part, ctx, chk, ndesigns=72, ncyc_range=(30, 70), compiled_every=2, post_every=3, verilog_every=2)
         _timed(ctx, 'rom_part', rom_part, ctx, ndesigns=8, per_design=6)
@@ -1776,7 +1785,12 @@ def run(real_ctx):
         _timed(ctx, 'walk_part', walk_part, ctx, chk, [(1, 1, 4, [[], [(0, 1)], [(1, 1), (0, 0)]], [0, 1]),
                              (2, 1, 2, [[], [(1, 1)]], [0, 1]),
                              (1, 2, 3, [[], [(0, 1)]], [0, 1]),
-                             (2, 2, 2, [[], [(1, 0)]], [0])])
+                             (2, 2, 2, [[], [(1, 0)]], [0]),
+                             (1, 1, 4, [[], [(0, 1)]], [0], {'wk': [('in', 'reg', 'reg', 0)], 'label': 'write data and enable from registers'}),
+                             (1, 1, 3, [[], [(1, 1)]], [0], {'wk': [('reg', 'in', 'in', 0)], 'rk': ['reg'], 'label': 'write address and read address from registers'}),
+                             (2, 1, 2, [[], [(0, 1), (1, 1)]], [0], {'wk': [('in', 'in', 'in', 0), ('in', 'in', 'c0', 0)], 'pred': lambda op: op[0][1][2] == 0, 'label': 'second port tied off (enable Const 0)'}),
+                             (2, 1, 3, [[], [(1, 0)]], [0], {'wk': [('in', 'reg', 'in', 0), ('const', 'in', 'c1', 1)], 'pred': lambda op: op[0][1][2] == 1 and op[0][1][0] == 1, 'label': 'second port always writes address 1 (Const address, Const 1 enable), first port data from a register'}),
+                             (1, 1, 3, [[], [(0, 1)]], [0], {'wk': [('reg', 'reg', 'implicit', 0)], 'pred': lambda op: op[0][0][2] == 1, 'label': 'unconditional write, address and data from registers'})])
         _timed(ctx, 'twin_part', twin_part, ctx, chk, 2, [[[], []], [[], [(0, 1)]], [[(1, 1)], []], [[(0, 0)], [(0, 1), (1, 1)]]], [0, 1])
         _timed(ctx, 'random_part', random_part, ctx, chk, ndesigns=700, ncyc_range=(30, 120), compiled_every=1, post_every=2, verilog_every=2)
         _timed(ctx, 'rom_part', rom_part, ctx, ndesigns=60, per_design=6)
